@@ -143,6 +143,23 @@ def fuzz_tests(sd, tier, seed):
     return out
 
 
+def par_tests(sd, tier):
+    """Two entry points of a connection called at the same time (ShipSme ParStep): in every state a cooperative peer can
+    bring a connection into, every pair of enabled calls - a message, the timer's expiry, approve, cancel, close, a transport
+    error - is started from two goroutines on the real connection. The races are real, so the table is repeated."""
+    out = []
+    for n, kw in single_cfgs(["cli", "srvP", "srvA", "srvW", "srvN"]):
+        name = "PAR_" + n
+        args = dict(kw)
+        args.update(defects=sme.DEFECTS, genmode="budget", budget=0, maxfail=0, maxdata=1, envclose=False, emit="edge",
+                    action_constraints=["EmitEdge"], par=True)
+        smegen.write(sd, name, **args)
+        ts, _ = sme.generate(sd, name, cfgd_of(name, kw), timeout=600)
+        out += [t for t in ts if t["steps"][-1]["a"]["a"] == "Par"]
+    reps = 3 if tier == "quick" else 40
+    return [dict(cfg=t["cfg"], steps=t["steps"]) for _ in range(reps) for t in out]
+
+
 def run_check(prop, tier):
     t0 = time.time()
     known = vlib.load_known()
@@ -217,7 +234,12 @@ def run_check(prop, tier):
             fz = fuzz_tests(sd, tier, seed)
             nfuzz = len(fz)
             tests += fz
-        print("stage G: %d behaviours (%d edges), %.0fs" % (len(tests), edges, time.time() - tg))
+        npar = 0
+        if prop != "C03":
+            pt = par_tests(sd, tier)
+            npar = len(pt)
+            tests += pt
+        print("stage G: %d behaviours (%d edges, %d concurrent-call steps), %.0fs" % (len(tests), edges, npar, time.time() - tg))
 
         # ---- stage R: replay into the real code
         obs, summ, out = sme.replay(sc, binp, tests, prop)
@@ -233,7 +255,7 @@ def run_check(prop, tier):
             p = m["key"][0]
             ks = vlib.key_str(m["key"][1:])
             if p != prop:
-                if not byid[m["id"]]["cfg"]["name"].startswith("FZ_"):
+                if not byid[m["id"]]["cfg"]["name"].startswith("FZ_") and not vlib.classify(p, m["key"][1:], m.get("kf", []), known):
                     others.setdefault(p + "/" + ks, m["id"])
                 continue
             kf = vlib.classify(prop, m["key"][1:], m.get("kf", []), known)
@@ -257,7 +279,7 @@ def run_check(prop, tier):
             traces_validated_against_impl=summ["tests"],
             samples=[dict(cfg=sample["cfg"], actions=[s["a"] for s in sample["steps"]])],
             model_configs=[n for n, _ in mres],
-            edges_emitted=edges, mutation_runs=nfuzz, behaviours_replayed=summ["tests"], steps_replayed=summ["steps"],
+            edges_emitted=edges, mutation_runs=nfuzz, concurrent_call_steps=npar, concurrent_outcomes_not_sequential=summ.get("par_not_sequential", 0), behaviours_replayed=summ["tests"], steps_replayed=summ["steps"],
             nonconformance=summ["divergences"], monitor_violation_lines=len(mons),
             known_findings_hit=sorted(known_hits),
             exhaustive=False,
